@@ -6,6 +6,7 @@ import Sftp.Model.Codec
     codec.enc   <layout> <values…>        → <hex> | bad
     codec.meter <layout> <cfg> <hex>      → <decimal>
     codec.recv  <maxLen> <hex stream>     → ok <typ> <hex payload> rest=<hex> | eof | shorthdr | long | zero | shortbody
+    codec.recvfx <maxLen> <hex stream>    → the same for filexfer `readPacket` (`zero` = declared length < 5)
 
   <layout>: field codes joined by `,` (or `-` for the empty layout):
      b u8 · w u32 · q u64 · s str · r rest · d lenData · a attrs · p pairs · m names · c:<hex> cstr
@@ -190,14 +191,18 @@ def showFrame : FrameResult → String
   | .errShortBody _ => "shortbody"
   | .ok t p r => "ok " ++ toString t ++ " " ++ hexOrDash p ++ " rest=" ++ hexOrDash r
 
-def opRecv : List String → String
+def opRecvWith (f : Nat → Bytes → FrameResult) : List String → String
   | [mx, hx] =>
     match mx.toNat?, fromHex hx with
-    | some m, some bs => showFrame (recvFrame m bs)
+    | some m, some bs => showFrame (f m bs)
     | _, _ => "bad-op"
   | _ => "bad-op"
 
+def opRecv : List String → String := opRecvWith recvFrame
+def opRecvFx : List String → String := opRecvWith recvFrameFx
+
 def ops : List (String × (List String → String)) :=
-  [ ("codec.dec", opDec), ("codec.enc", opEnc), ("codec.meter", opMeter), ("codec.recv", opRecv) ]
+  [ ("codec.dec", opDec), ("codec.enc", opEnc), ("codec.meter", opMeter), ("codec.recv", opRecv),
+    ("codec.recvfx", opRecvFx) ]
 
 end Sftp.Driver.Codec
